@@ -73,6 +73,10 @@ func (c *cpCase) allFlags() bool {
 func (c *cpCase) String() string {
 	s := fmt.Sprintf("send=%v srv=%v hops=%v:", c.sendCancel, c.srvProp, c.hops)
 	for _, l := range c.labels {
+		if l >= len(cpLabelNames) {
+			s += " " + c14dcLabelName(l)
+			continue
+		}
 		s += " " + cpLabelNames[l]
 	}
 	return s
@@ -240,6 +244,8 @@ type cpFacts struct {
 	timingInvalid    bool
 	harnessErr       string
 	respWhileRunning bool
+	c14dcDrained     []int    // parties (0 server, 1 caller, 2+i relay hop i) that started a graceful Close with the call in flight
+	c14dcStates      []string // the connection states of that party right after its Close
 }
 
 // runCancelCase executes the script; T is the caller's timeout.
@@ -263,6 +269,7 @@ func runCancelCase(c *cpCase, T time.Duration, asyncCancel bool) (obs []int64, f
 	defer close(h.cmds)
 	next := srv.PeerInfo().HostPort
 	killer := &cpDialer{}
+	relays := make([]*tchannel.Channel, len(c.hops))
 	setupCtx, setupCancel := tchannel.NewContext(5 * time.Second)
 	defer setupCancel()
 	for i := len(c.hops) - 1; i >= 0; i-- {
@@ -279,6 +286,7 @@ func runCancelCase(c *cpCase, T time.Duration, asyncCancel bool) (obs []int64, f
 			return
 		}
 		defer rl.Close()
+		relays[i] = rl
 		if err := rl.ListenAndServe("127.0.0.1:0"); err != nil {
 			facts.harnessErr = err.Error()
 			return
@@ -552,6 +560,29 @@ func runCancelCase(c *cpCase, T time.Duration, asyncCancel bool) (obs []int64, f
 			if handlerStarted(0) {
 				facts.connFailed = true
 			}
+		default:
+			// engine_c14drain.go: a party starts a graceful Close (Channel.Close) while the call is in
+			// flight; skipped (as in Model/C14DrainCancel.v) unless the handler runs with a live context
+			if l < c14dcDrainBase || !handlerStarted(0) || h.ctx.Err() != nil {
+				continue
+			}
+			who := l - c14dcDrainBase
+			var ch *tchannel.Channel
+			switch {
+			case who == 0:
+				ch = srv
+			case who == 1:
+				ch = cl
+			case who-2 < len(relays):
+				ch = relays[who-2]
+			}
+			if ch == nil {
+				continue
+			}
+			ch.Close()
+			time.Sleep(20 * time.Millisecond)
+			facts.c14dcDrained = append(facts.c14dcDrained, who)
+			facts.c14dcStates = append(facts.c14dcStates, c14dcConnStates(ch))
 		}
 	}
 	// final observation
